@@ -144,6 +144,8 @@ func c10Drivers() []*icCfg {
 			Scripts: [][]icOp{{{Kind: "hget", K: 1}, {Kind: "hdel", K: 1}}, {C}}, Post: []icOp{{Kind: "est"}, G(1), S(3), {Kind: "len"}, W}},
 		{Name: "D10b-hybrid-loading", O: hOpts{MaxSize: 1, ChanSize: 2, BufSize: 2}, Hy: &hyIcCfg{Workers: 1, Prob: 1}, Loading: true, LoadCost: 1, Pre: []icOp{L(1), L(2), W},
 			Scripts: [][]icOp{{L(1)}, {C}}, Post: []icOp{{Kind: "est"}, G(1), S(3), {Kind: "len"}, W}},
+		// "every call terminates" without any Close to rescue a parked caller: concurrent Wait callers with writers and a size poller
+		{Name: "D11-no-close-two-waiters", O: q2, Scripts: [][]icOp{{S(1), W}, {S(2), W}, {{Kind: "est"}, G(1)}}, Post: epi},
 		{Name: "D6-close-close", O: q2, Pre: []icOp{S(1)}, Scripts: [][]icOp{{C}, {C}, {S(2)}}, Post: epi},
 	}
 }
